@@ -173,6 +173,24 @@ func ObsOf(e gerror.Error) string {
 // call line into the Go call to make; it re-applies fmt itself and refuses (non-empty problem) when
 // the F: word is not what fmt produces for these operands.
 func ParseCall(ws []string) (c *sites.Call, site, frames, problem string) {
+	return ParseCallR(ws, nil)
+}
+
+// WrapKinds are the Convert* inputs that are foreign errors WRAPPING the gerror value held in a
+// register: w/v = fmt.Errorf("ctx: %w", value), j/k = errors.Join(errors.New("x"), value); the
+// caller's resolver says which value a (kind, register) pair denotes.
+const WrapKinds = "wjvk"
+
+// Wrap builds the wrapping error for a WrapKinds kind.
+func Wrap(kind string, inner error) error {
+	if kind == "w" || kind == "v" {
+		return fmt.Errorf("ctx: %w", inner)
+	}
+	return errors.Join(errors.New("x"), inner)
+}
+
+// ParseCallR is ParseCall with a resolver for register-valued Convert* inputs.
+func ParseCallR(ws []string, resolve func(kind string, reg int) (error, bool)) (c *sites.Call, site, frames, problem string) {
 	if len(ws) != 6 {
 		return nil, "", "", "bad-op"
 	}
@@ -233,6 +251,19 @@ func ParseCall(ws []string) (c *sites.Call, site, frames, problem string) {
 	case m == "Convert" || m == "ConvertS":
 		if len(elems) != 1 {
 			return nil, "", "", "bad-op"
+		}
+		if k := elems[0].Kind; strings.Contains(WrapKinds, k) {
+			// the text of a wrapped value is the model's to predict: no F: check here
+			reg, err := strconv.Atoi(elems[0].Val)
+			if err != nil || resolve == nil {
+				return nil, "", "", "bad-op"
+			}
+			inner, ok := resolve(k, reg)
+			if !ok {
+				return nil, "", "", "bad-reg"
+			}
+			c.Err = Wrap(k, inner)
+			break
 		}
 		c.Err = elems[0].ErrValue()
 		if _, isG := c.Err.(gerror.Error); isG {
